@@ -1,6 +1,6 @@
 (* C09 Accepted programs are well formed; malformed ones never compile silently. *)
 From Coq Require Import List String.
-From PC Require Import Comp.Syntax Comp.Struct Comp.StructProofs Comp.Compile Comp.Denote Comp.EmitProofs Comp.WfCheck Comp.WfPil Comp.CompileProofs Design.Designer Design.CrossProofs Base.Sexp Sys.System Sys.LoadWf Sys.SysWfPil Sys.SysDesign.
+From PC Require Import Comp.Syntax Comp.Struct Comp.StructProofs Comp.Compile Comp.Denote Comp.EmitProofs Comp.WfCheck Comp.WfPil Comp.CompileProofs Design.Designer Design.CrossProofs Base.Sexp Sys.System Sys.LoadWf Sys.SysWfPil Sys.SysDesign Comp.Fix Comp.FixShape Design.FixedEndToEnd Sys.SysFixed.
 Import ListNotations.
 
 (* whenever output is produced for a well-formed object, the document passes the executable
@@ -54,3 +54,18 @@ Print Assumptions C09_loaded_system_wf_pil.
 Theorem C09_names_okb_sound : forall f o, names_okb f o = true -> names_ok f o.
 Proof. exact names_okb_sound. Qed.
 Print Assumptions C09_names_okb_sound.
+
+(* "whenever the compiler produces output" includes compiles with a fixed-sequence file: a compiled component with any
+   list of fixed entries applied - whatever each one's outcome - still emits a well-formed document *)
+Theorem C09_fixed_component_wf_pil : forall ctr prefix d body c ctr' es,
+  compile_comp ctr prefix d body = OK (c, ctr') -> wf_pil (emit_comp (fix_comp_entries c es)) = true.
+Proof. exact fixed_component_wf_pil. Qed.
+Print Assumptions C09_fixed_component_wf_pil.
+
+(* ... and so does a whole (nested) system compiled with any fixed list (sequence, signal, strand and structure entries,
+   qualified names, starred bindings): same name hypothesis as without a fixed file *)
+Theorem C09_fixed_system_wf_pil : forall fs includes ctr basename args fixed lines ctr',
+  compile_top fs includes ctr basename args fixed = OK (lines, ctr') ->
+  (forall o, load_file fs includes 12 ctr basename args "" "." = OK (o, ctr') -> names_ok 12 o) -> wf_pil lines = true.
+Proof. exact fixed_system_wf_pil. Qed.
+Print Assumptions C09_fixed_system_wf_pil.
